@@ -16,7 +16,7 @@ KINDS = ['sp', 'rr', 'wrr', 'drr']
 
 
 def gen(rng, n):
-    return [gen_group(rng, f'mq{i}', KINDS[i % 4], backlog=rng.random() < 0.4, share=0.2) for i in range(n)]
+    return [gen_group(rng, f'mq{i}', KINDS[i % 4], backlog=rng.random() < 0.4, share=0.1) for i in range(n)]
 
 
 def run_family(ctx):
@@ -27,7 +27,7 @@ def run_family(ctx):
         cases = gen(rng, 1850 if ctx.quick else 40000)
     return evaluate(
         cases, [oracle_c12],
-        nontrivial=lambda c, r, st, co: co[0] + co[1] > 0,
+        nontrivial=lambda c, r, st, co: co[0] + co[1] > 0, again_n=20,
         rule='seeded random configurations of SP/RR/WRR/DRR (2-6 flows, identity and many-to-one flow2class maps, Monitors with both '
              'settings) x workloads (1-3 sources, same-instant bursts, idle gaps); non-trivial = distinct case with at least one '
              'arrival at the very instant a transmission ends')
